@@ -17,12 +17,20 @@ INT_TYPES = {
 class Unsupported(Exception):
     pass
 
+TYPEDEFS = {}
+
 def ctype(node):
     t = node.get('type', {})
     q = t.get('desugaredQualType', t.get('qualType', ''))
     q = q.replace('const ', '').replace('volatile ', '').strip()
+    for _ in range(8):                     # typedef chains that clang does not desugar (typedef'd enums)
+        if q in INT_TYPES or q not in TYPEDEFS:
+            break
+        q = TYPEDEFS[q].replace('const ', '').replace('volatile ', '').strip()
     if q in INT_TYPES:
         return INT_TYPES[q]
+    if q.startswith('enum '):
+        return (32, True)          # enumerations with a negative enumerator / fitting int: `int` (gcc, clang on this ABI)
     raise Unsupported('type ' + repr(t))
 
 def is_ptr(node):
@@ -129,6 +137,8 @@ class Fn:
             if ck == 'IntegralCast':
                 return conv(self.ev(inner, env), ctype(inner), ctype(n))
             raise Unsupported('cast ' + str(ck))
+        if k == 'DeclRefExpr' and n.get('referencedDecl', {}).get('kind') == 'EnumConstantDecl':
+            return lit(self.tu['enums'][n['referencedDecl']['name']], ctype(n)[0])
         if k in ('DeclRefExpr', 'MemberExpr'):
             return env[self.lvalue_key(n)]
         if k == 'UnaryOperator':
@@ -346,16 +356,42 @@ def load(path, extra):
     if p.returncode != 0:
         raise Unsupported('clang failed: ' + p.stderr[-500:])
     ast = json.loads(p.stdout)
-    tu = {'records': {}, 'typedefs': {}, 'fns': {}}
+    tu = {'records': {}, 'typedefs': {}, 'fns': {}, 'enums': {}}
+    def walk_enums(node):
+        if node.get('kind') == 'EnumDecl':
+            nxt = 0
+            for e in node.get('inner', []):
+                if e.get('kind') != 'EnumConstantDecl':
+                    continue
+                init = [x for x in e.get('inner', []) if not x['kind'].endswith('Comment')]
+                if init:
+                    try:
+                        nxt = const_eval(init[0])
+                    except (Unsupported, KeyError):
+                        nxt = None           # an initialiser outside the constant subset (system headers): value unknown
+                if nxt is not None:
+                    tu['enums'][e['name']] = nxt
+                    nxt += 1
+        for ch in node.get('inner', []) if node.get('kind') in ('TranslationUnitDecl', 'TypedefDecl', 'ElaboratedType') else []:
+            walk_enums(ch)
+    walk_enums(ast)
     for c in ast['inner']:
         if c['kind'] == 'TypedefDecl':
             t = c['type']
             tu['typedefs'][c['name']] = t.get('desugaredQualType', t['qualType'])
+            if tu['typedefs'][c['name']] == c['name']:      # clang reports a typedef'd enum as itself
+                tu['typedefs'][c['name']] = t['qualType']
+            TYPEDEFS[c['name']] = tu['typedefs'][c['name']]
         if c['kind'] == 'RecordDecl' and 'inner' in c:
-            try:
-                tu['records'][c.get('name', '')] = [(f['name'], ctype(f)) for f in c['inner'] if f['kind'] == 'FieldDecl']
-            except Unsupported:
-                pass
+            fields = []
+            for f in c['inner']:
+                if f['kind'] != 'FieldDecl':
+                    continue
+                try:
+                    fields.append((f['name'], ctype(f)))
+                except Unsupported:
+                    pass        # non-scalar field (array, pointer, nested struct): not part of the translated state; any access to it is rejected
+            tu['records'][c.get('name', '')] = fields
         if c['kind'] == 'FunctionDecl' and any(x['kind'] == 'CompoundStmt' for x in c.get('inner', [])):
             tu['fns'][c['name']] = c
     for k, v in list(tu['typedefs'].items()):
